@@ -308,11 +308,9 @@ func (g *pgen) seq(depth int, maxLen int) []any {
 		case k == 19 && g.inLoop > 0 && g.captures == 0:
 			// the value list is a function of the group (what two cycle tags of one group
 			// with different lists do is left open by the statement)
+			// (one position per loop and group; each tag emits the entry of its own list at that position)
 			grp := pick(g.r, []string{"g1", "g2"})
-			vals := []any{bs("p"), bs("q")}
-			if grp == "g2" {
-				vals = []any{bs("p"), bs("q"), bs("r")}
-			}
+			vals := []any{bs("p"), bs("q"), bs("r")}[:1+g.r.Intn(3)]
 			out = append(out, g.withTrims(J{"t": "cycle", "group": bs(grp), "vals": vals})...)
 		case g.rich && k == 13 && g.r.Intn(3) == 0:
 			// opaque blocks: their bodies are complete tags / objects and plain text (never their own end tag)
